@@ -78,6 +78,7 @@ def judge (inp obs : List String) : Verdict :=
       let mPol := forest.flatMap (·.preorder)
       let mPolS := if mPol.isEmpty then "e" else "+".intercalate (mPol.map showSet)
       let used := usedL forest
+      let prefixes := prefixes.filter fun (_, l) => decide (Generated.Dhcp.defaultPoolMinLen ≤ l)
       let mDef := prefixes.map fun (a, l) => some (defaultPool a l sip used)
       let mDefS := if mDef.isEmpty then "e" else "+".intercalate (mDef.map showSet)
       let dPol := forest.flatMap docPreorder
